@@ -39,6 +39,27 @@ var c18GovValues = []string{
 	"500000", "10000000", "10000001",
 }
 
+// legalise moves the staking, evidence and proposal options of a world to the smallest values the governance
+// rules accept (data/governance/validations.go), so that an update of any one member of those sets passes the
+// validation of the whole set. The histories of the catalogue still execute their transactions; the hooks that
+// depended on short maturities and deadlines simply do not fire within the history.
+func legalise(w *harness.World) {
+	g := &w.Gov
+	g.StakingOptions.TopValidatorCount = 8
+	g.StakingOptions.MaturityTime = 109200
+	g.EvidenceOptions.BlockVotesDiff = 1000
+	g.EvidenceOptions.MinVotesRequired = 700
+	po := &g.PropOptions
+	po.ConfigUpdate.FundingDeadline, po.ConfigUpdate.VotingDeadline = 10000, 10000
+	po.CodeChange.FundingDeadline, po.CodeChange.VotingDeadline = 10000, 150000
+	po.General.FundingDeadline, po.General.VotingDeadline = 75000, 75000
+	for _, o := range []*int{&po.ConfigUpdate.PassPercentage, &po.CodeChange.PassPercentage, &po.General.PassPercentage} {
+		if *o < 51 || *o > 80 {
+			*o = 67
+		}
+	}
+}
+
 // c18GovKeys asks a live application for the option names of its registry.
 func c18GovKeys(scn string) ([]string, error) {
 	h, err := buildHist(scn, 0)
@@ -72,6 +93,9 @@ func c18GovExec(j c18Job) c18Res {
 	h, err := buildHist(j.Scn, 0)
 	if err != nil {
 		return c18Res{Err: err.Error()}
+	}
+	if j.Legal {
+		legalise(h.W)
 	}
 	x, err := harness.StartRun(h.W)
 	if err != nil {
@@ -188,26 +212,28 @@ func c18GovPhase(f explore.Flags, rep *explore.Reporter, deadline time.Time, kee
 	}
 	judge := func(j c18Job, r c18Res) {
 		kind := catalogue.Get(j.Scn).Kind
-		distinct["gov|"+j.Scn+"|"+j.Gov] = true
+		distinct["gov|"+j.Scn+"|"+govTag(j)] = true
 		switch {
 		case r.Dead:
-			rep.Violation(fmt.Sprintf("C18|panic-app-closed|kind=%s|option=%s|path=history", kind, c18GovClass(j.Gov)), fmt.Sprintf("history %s with option %q installed (applied=%v %s) before its target block: %s", j.Scn, j.Gov, r.GovApplied, r.GovRefused, r.Log), j)
+			rep.Violation(fmt.Sprintf("C18|panic-app-closed|kind=%s|option=%s|path=history", kind, c18GovClass(j.Gov)), fmt.Sprintf("history %s with option %q installed (applied=%v %s) before its target block: %s", j.Scn, govTag(j), r.GovApplied, r.GovRefused, r.Log), j)
 		case r.Halt != "":
-			rep.Violation(fmt.Sprintf("C18|consensus-halt|kind=%s|option=%s|path=history", kind, c18GovClass(j.Gov)), fmt.Sprintf("history %s with option %q installed (applied=%v %s): %s", j.Scn, j.Gov, r.GovApplied, r.GovRefused, r.Halt), j)
+			rep.Violation(fmt.Sprintf("C18|consensus-halt|kind=%s|option=%s|path=history", kind, c18GovClass(j.Gov)), fmt.Sprintf("history %s with option %q installed (applied=%v %s): %s", j.Scn, govTag(j), r.GovApplied, r.GovRefused, r.Halt), j)
 		}
 	}
-	// pass 1: every pair on the base history
+	// pass 1: every pair on the base history, in the world as it is and in its variant with legal option sets
 	accepted := map[string]bool{}
 	var pass1 []c18Job
-	for _, k := range keys {
-		for _, v := range c18GovValues {
-			pass1 = append(pass1, c18Job{Scn: base, Gov: k + ":" + v, Name: "option " + k + ":" + v, Path: "history"})
+	for _, legal := range []bool{false, true} {
+		for _, k := range keys {
+			for _, v := range c18GovValues {
+				pass1 = append(pass1, c18Job{Scn: base, Gov: k + ":" + v, Name: "option " + k + ":" + v, Path: "history", Legal: legal})
+			}
 		}
 	}
 	refusedWhy := map[string]int{}
 	run(pass1, func(j c18Job, r c18Res) {
 		if r.GovApplied {
-			accepted[j.Gov] = true
+			accepted[govTag(j)] = true
 		} else {
 			refusedWhy[tail(r.GovRefused, 40)]++
 		}
@@ -223,10 +249,22 @@ func c18GovPhase(f explore.Flags, rep *explore.Reporter, deadline time.Time, kee
 	st.report["refusal_reasons"] = refusedWhy
 	// pass 2: the pairs against every other history
 	var pass2 []c18Job
+	firstOfKind := map[string]bool{}
+	seenKind := map[string]bool{}
+	for _, scn := range scns {
+		if k := catalogue.Get(scn).Kind; !seenKind[k] {
+			seenKind[k], firstOfKind[scn] = true, true
+		}
+	}
 	for _, scn := range scns[1:] {
 		for _, p := range pass1 {
-			if accepted[p.Gov] || f.Tier == "thorough" {
-				pass2 = append(pass2, c18Job{Scn: scn, Gov: p.Gov, Name: p.Name, Path: "history"})
+			// (quick tier: the legal variant runs on one history per transaction kind)
+			if p.Legal && f.Tier != "thorough" && !firstOfKind[scn] {
+				continue
+			}
+			// (quick tier: a pair accepted in the world as it is is not run again in the legal variant)
+			if (accepted[govTag(p)] && !(p.Legal && accepted[p.Gov])) || f.Tier == "thorough" {
+				pass2 = append(pass2, c18Job{Scn: scn, Gov: p.Gov, Name: p.Name, Path: "history", Legal: p.Legal})
 			}
 		}
 	}
@@ -244,8 +282,16 @@ func c18GovPhase(f explore.Flags, rep *explore.Reporter, deadline time.Time, kee
 	st.report["executions"] = 1 + len(pass1) + len(pass2)
 	st.report["executions_with_the_option_applied"] = applied + len(acc)
 	st.report["of_which_the_target_transaction_still_succeeded"] = targetOK
-	st.report["rule"] = "one execution = one catalogue history on the real application, with one (option, value) pair handed to the application's own governance update function (validate and write, as the finalisation of a passed configuration proposal does) after the last DeliverTx of the block before the history's target block, then the rest of the history and three empty blocks; quick tier: pairs the function accepted on the base history x every history, the refused pairs on the base history only; thorough tier: every pair x every history"
+	st.report["rule"] = "one execution = one catalogue history on the real application, with one (option, value) pair handed to the application's own governance update function (validate and write, as the finalisation of a passed configuration proposal does) after the last DeliverTx of the block before the history's target block, then the rest of the history and three empty blocks; every pair in the world as the history defines it and in its variant whose staking, evidence and proposal option sets are legal by the governance rules (otherwise no member of those sets can be changed); quick tier: pairs the function accepted on the base history x every history (a pair accepted in the plain world is not repeated in the legal variant, and the legal variant runs on one history per transaction kind), the refused pairs on the base history only; thorough tier: every pair x every history x both variants"
 	return st
+}
+
+// govTag: the pair plus the world variant it was installed in.
+func govTag(j c18Job) string {
+	if j.Legal {
+		return j.Gov + "@legal-option-sets"
+	}
+	return j.Gov
 }
 
 // c18GovClass: the option name plus the class of the value (the concrete number stays in the replay file).
